@@ -50,6 +50,12 @@ class VClockDt(real_dt):
         return cls._base + td(seconds=t, microseconds=cls._n)
 
 
+class Tagged(str):
+    """A frame text that remembers which call it belongs to (two callers may send equal frames)."""
+
+    call: int | None = None
+
+
 class WouldBlockForever(BaseException):
     """threading.Lock.acquire() on a lock this (only) thread already holds."""
 
@@ -156,6 +162,7 @@ def gen_coarse(rnd: random.Random) -> Episode:
 class Result:
     def __init__(self) -> None:
         self.writes: list = []        # (t, frame)
+        self.write_calls: list = []   # call idx of each write (None: not a caller's command), parallel to writes
         self.outcomes: dict = {}      # call idx -> (t_done, "ok"/"err", text)
         self.started: dict = {}       # call idx -> t_call
         self.seq: dict = {}           # call idx -> order in which send_cmd was invoked
@@ -206,7 +213,8 @@ def run_episode(ep: Episode) -> Result:
 
             async def write_frame(self, frame: str, disable_tx_limits: bool = False) -> None:
                 now = loop.time()
-                res.writes.append((now, frame))
+                res.writes.append((now, str(frame)))
+                res.write_calls.append(getattr(frame, "call", None))
                 idx = next((i for i, (q, _) in enumerate(POOL) if q == frame), None)
                 if idx is None:
                     # an impersonation alert or the probe: echo promptly
@@ -263,6 +271,8 @@ def run_episode(ep: Episode) -> Result:
             res.started[i] = loop.time()
             res.seq[i] = len(res.seq)
             cmd = Command(POOL[c["cmd"]][0])
+            cmd._repr = Tagged(str(cmd))  # str(cmd) is what reaches write_frame: the very object, tagged
+            cmd._repr.call = i
             qos = QosParams(max_retries=c["max_retries"], timeout=c["timeout"], wait_for_reply=c["wfr"])
             try:
                 pkt = await protocol.send_cmd(cmd, priority=Priority(c["prio"]), qos=qos)
